@@ -620,8 +620,9 @@ def ref_labels_expansion(v, view: "SpecView"):
             nodes, dist, weighted = 0, 0, 0
             for c in x:
                 n, d, w = fold(c)
-                nodes += n
-                dist = max(dist, d + (0 if isinstance(c, (list, tuple)) else 1))
+                adj = 1 if isinstance(c, (list, tuple)) else 0  # a nested container is one more expansion
+                nodes += adj + n
+                dist = max(dist, d + adj + (0 if isinstance(c, (list, tuple)) else 1))
                 weighted += w
             return nodes, dist, weighted
         if type(x).__module__ == "builtins":
